@@ -36,7 +36,9 @@ def _extra5(pid):
             "caches, lost forwarding, in-place mutation of arguments or of the wrapped dataset's storage, narrow dtypes, numpy / tensor "
             "scalars as arguments, positional vs keyword construction, copy / deepcopy / pickle clones, shared objects, second passes and "
             "two live iterators over one object, launcher environment variables, torch default dtype, user subclasses overriding a public "
-            "hook, real worker processes and real process groups. Find something OUTSIDE all of that. Ideas: an alternate documented way of "
+            "hook, real worker processes and real process groups, public attributes re-assigned after construction, inputs the library refuses "
+            "(they must stay refused), kind-dict / list descriptions resolved by the factory, samples recomputed in freshly started "
+            "interpreters, unlabeled (-1) samples, non-contiguous and float64 tensors. Find something OUTSIDE all of that. Ideas: an alternate documented way of "
             "reaching the same behaviour that the list above does not mention; degenerate-but-legal sizes or values (empty / one element / "
             "all equal / probability exactly 0 or 1 / extreme alpha) in combination with a second option; an unusual but legal ORDER of public "
             "method calls (re-configuring after use, calling a hook twice, using an object after dispose / clear); state that accumulates so "
